@@ -55,6 +55,10 @@ pub struct NogoodCase {
     /// the sender must have been dropped by the call itself, not by the object's destructor)
     #[serde(default)]
     pub adf_outlives_consumer: bool,
+    /// the object the search runs on went through a persistence round trip first:
+    /// 1 = JSON export, import, `fix_import`; 2 = rebuilt from node list, ordering and roots
+    #[serde(default)]
+    pub imported: u8,
 }
 
 pub struct Nogood;
@@ -162,7 +166,7 @@ impl Scenario for Nogood {
                 2 => Entry::TwoValChannel,
                 _ => Entry::TwoCalls,
             };
-            return NogoodCase { spec, build: if rng.chance(1, 3) { Build::Bridged } else { Build::Native }, heu, entry, chan: Chan::Unbounded, adf_outlives_consumer: rng.chance(1, 2) };
+            return NogoodCase { spec, build: if rng.chance(1, 3) { Build::Bridged } else { Build::Native }, heu, entry, chan: Chan::Unbounded, adf_outlives_consumer: rng.chance(1, 2), imported: 0 };
         }
         if rng.chance(1, if thorough { 1500 } else { 3000 }) {
             // many statements, sparse: a small random ADF (2-4 statements) embedded into 66-130
@@ -202,7 +206,7 @@ impl Scenario for Nogood {
                 2 => Entry::TwoValChannel,
                 _ => Entry::TwoCalls,
             };
-            return NogoodCase { spec, build: if rng.chance(1, 4) { Build::Bridged } else { Build::Native }, heu, entry, chan: Chan::Unbounded, adf_outlives_consumer: rng.chance(1, 2) };
+            return NogoodCase { spec, build: if rng.chance(1, 4) { Build::Bridged } else { Build::Native }, heu, entry, chan: Chan::Unbounded, adf_outlives_consumer: rng.chance(1, 2), imported: 0 };
         }
         if rng.chance(1, if thorough { 3000 } else { 12000 }) {
             // many models: k independent even loops a_i = neg(b_i), b_i = neg(a_i) have 2^k
@@ -221,7 +225,7 @@ impl Scenario for Nogood {
                 0 | 1 => Entry::Iterator,
                 _ => Entry::StableChannel,
             };
-            return NogoodCase { spec, build: Build::Native, heu, entry, chan: Chan::Unbounded, adf_outlives_consumer: rng.chance(1, 2) };
+            return NogoodCase { spec, build: Build::Native, heu, entry, chan: Chan::Unbounded, adf_outlives_consumer: rng.chance(1, 2), imported: 0 };
         }
         if rng.chance(1, if thorough { 2000 } else { 10000 }) {
             // long searches: 2^n leaves, more than 500 learned nogoods of one arity from n = 10
@@ -240,7 +244,7 @@ impl Scenario for Nogood {
                 1 => Entry::StableChannel,
                 _ => Entry::TwoValChannel,
             };
-            return NogoodCase { spec, build: Build::Native, heu, entry, chan: if rng.chance(1, 2) { Chan::Unbounded } else { Chan::Bounded(rng.below(3) as usize) }, adf_outlives_consumer: rng.chance(1, 2) };
+            return NogoodCase { spec, build: Build::Native, heu, entry, chan: if rng.chance(1, 2) { Chan::Unbounded } else { Chan::Bounded(rng.below(3) as usize) }, adf_outlives_consumer: rng.chance(1, 2), imported: 0 };
         }
         let n = if rng.chance(1, 12) { 1 } else { rng.range(2, if thorough { 7 } else { 6 }) } as usize;
         // a share of structured worst cases: every statement supports only itself (2^n models)
@@ -285,6 +289,8 @@ impl Scenario for Nogood {
             entry,
             chan,
             adf_outlives_consumer: rng.chance(1, 2),
+            // drawn last
+            imported: if rng.chance(1, 5) { 1 + rng.below(2) as u8 } else { 0 },
         }
     }
 
@@ -396,6 +402,15 @@ impl Scenario for Nogood {
                         return;
                     }
                 };
+                if case.imported != 0 {
+                    adf = match crate::common::round_trip(adf, case.imported) {
+                        Ok(a) => a,
+                        Err(e) => {
+                            solver_out.lock().unwrap().build_error = Some(e);
+                            return;
+                        }
+                    };
+                }
                 let adv: &(dyn Fn(&Adf, &[Term]) -> Option<(Var, Term)> + Sync) = &adversary;
                 let heu = match &case.heu {
                     Heu::Simple => Heuristic::Simple,
@@ -491,7 +506,7 @@ impl Scenario for Nogood {
             stats,
         };
         let v = |o: &str, c: &str, m: String| Some(Violation::new(o, c, m));
-        let ctx = format!("[{} | {:?} {:?} {:?} {:?}]", case.spec.text(), case.build, heu_name(&case.heu), case.entry, case.chan);
+        let ctx = format!("[{} | {:?}{} {:?} {:?} {:?}]", case.spec.text(), case.build, ["", "+json-round-trip", "+node-list-rebuild"][case.imported.min(2) as usize], heu_name(&case.heu), case.entry, case.chan);
 
         if let Some(e) = so.build_error {
             return mk(v("harness", "build", e), stats);
@@ -566,6 +581,11 @@ impl Scenario for Nogood {
         if c.build != Build::Native {
             let mut d = c.clone();
             d.build = Build::Native;
+            out.push(d);
+        }
+        if c.imported != 0 {
+            let mut d = c.clone();
+            d.imported = 0;
             out.push(d);
         }
         if c.heu != Heu::Simple && !matches!(c.heu, Heu::Rand(_)) {
